@@ -123,6 +123,9 @@ func (cp *campaign) one(i int, spec caseSpec) {
 	}
 	cp.mu.Unlock()
 	if f == nil {
+		if len(spec.Ops) > 0 && len(spec.Ops[0].A) > 64 {
+			return // size-boundary case: too long for a literal sample
+		}
 		cp.c.Ev.Sample(4, map[string]interface{}{"case": spec.Name, "store": spec.Store.Engine + "/" + spec.Store.Policy, "ops": opsStrings(head(spec.Ops, 12))})
 		return
 	}
